@@ -78,6 +78,10 @@ pub trait Prop {
     fn assumptions(&self) -> Vec<&'static str> {
         vec![]
     }
+    /// Floors whose counter names are computed (e.g. one per accented letter).
+    fn dyn_floors(&self) -> Vec<(String, u64, u64)> {
+        vec![]
+    }
     /// Ratio bounds between two counters: (numerator, denominator, min, max); outside -> inconclusive.
     fn ratios(&self) -> Vec<(&'static str, &'static str, f64, f64)> {
         vec![]
@@ -373,7 +377,8 @@ pub fn run(prop: &dyn Prop, args: &RunArgs) -> i32 {
             cx.counters.insert(n.to_string(), *v);
         }
     }
-    let floors: Vec<Value> = prop.floors().iter().map(|(n, q, t)| json!({"counter": n, "quick": q, "thorough": t})).collect();
+    let mut floors: Vec<Value> = prop.floors().iter().map(|(n, q, t)| json!({"counter": n, "quick": q, "thorough": t})).collect();
+    floors.extend(prop.dyn_floors().iter().map(|(n, q, t)| json!({"counter": n, "quick": q, "thorough": t})));
     let ratios: Vec<Value> = prop.ratios().iter().map(|(a, b, lo, hi)| json!({"num": a, "den": b, "min": lo, "max": hi})).collect();
     let viols: Vec<Value> = cx
         .viols
